@@ -21,8 +21,8 @@ Monitors (written against the property text, never against the model):
                                                   re-reading the socket bytes with a second real connection
                                                   yields a prefix of the sent messages
   * no exception ever escapes `__processConnection`
-Private attributes touched: `_TcpConnection__readBuffer`, `__writeBuffer`, `__lastReadTime`,
-`__processConnection` (read only, besides the call).
+Private attributes touched: `_TcpConnection__readBuffer`, `__writeBuffer`, `__lastReadTime`, `__socket`
+(read only), `__processConnection` (called).
 """
 import errno
 import hashlib
@@ -328,6 +328,10 @@ class Env(object):
                     raise
                 exc.append((idx, k, type(e).__name__))
             steps.append(self.snapshot(conn, sock, poller, delivered, ndisc))
+            # the two facts that let the model write `self.__socket is not sock` (D53) as `state == DISCONNECTED`
+            fn = conn.fileno()
+            if (fn is None) != (conn.state == 0) or (fn is not None and conn._TcpConnection__socket is None):
+                exc.append((idx, "abstraction", "socket-state-invariant-broken"))
         return {"steps": steps, "delivered": list(delivered), "exc": exc,
                 "wire": bytes(sock.wire) if sock is not None else b"",
                 "state": conn.state, "rbuf": bytes(conn._TcpConnection__readBuffer),
